@@ -11,19 +11,19 @@ pub fn floor(x: i32) -> i32 {
 }
 
 pub fn round(x: i32) -> i32 {
-    floor(x + 32)
+    floor(x.wrapping_add(32))
 }
 
 pub fn ceil(x: i32) -> i32 {
-    floor(x + 63)
+    floor(x.wrapping_add(63))
 }
 
 fn floor_pad(x: i32, n: i32) -> i32 {
-    x & !(n - 1)
+    x & !(n.wrapping_sub(1))
 }
 
 pub fn round_pad(x: i32, n: i32) -> i32 {
-    floor_pad(x + n / 2, n)
+    floor_pad(x.wrapping_add(n / 2), n)
 }
 
 #[inline(always)]
@@ -45,27 +45,25 @@ pub fn mul_div(a: i32, b: i32, c: i32) -> i32 {
 /// Fixed point multiply and divide without rounding: a * b / c
 ///
 /// Based on <https://gitlab.freedesktop.org/freetype/freetype/-/blob/57617782464411201ce7bbc93b086c1b4d7d84a5/src/base/ftcalc.c#L200>
-pub fn mul_div_no_round(mut a: i32, mut b: i32, mut c: i32) -> i32 {
+pub fn mul_div_no_round(a: i32, b: i32, c: i32) -> i32 {
     let mut s = 1;
     if a < 0 {
-        a = -a;
         s = -1;
     }
     if b < 0 {
-        b = -b;
         s = -s;
     }
     if c < 0 {
-        c = -c;
         s = -s;
     }
-    let d = if c > 0 {
-        ((a as i64) * (b as i64)) / c as i64
-    } else {
-        0x7FFFFFFF
-    };
+    // Values on the interpreter stack can be any i32, so take magnitudes
+    // as unsigned values to avoid overflow when negating i32::MIN.
+    let a = a.unsigned_abs() as u64;
+    let b = b.unsigned_abs() as u64;
+    let c = c.unsigned_abs() as u64;
+    let d = if c > 0 { (a * b) / c } else { 0x7FFFFFFF };
     if s < 0 {
-        -(d as i32)
+        (d as i32).wrapping_neg()
     } else {
         d as i32
     }
@@ -134,7 +132,7 @@ pub fn normalize14(x: i32, y: i32) -> Point<i32> {
             uy + (ux >> 1)
         };
     } else {
-        let s = -shift.0 as usize;
+        let s = (-shift).0 as usize;
         ux >>= s;
         uy >>= s;
         len >>= s;
@@ -148,7 +146,7 @@ pub fn normalize14(x: i32, y: i32) -> Point<i32> {
     loop {
         u = Wrapping((x + ((x * b) >> 16)).0 as u32);
         v = Wrapping((y + ((y * b) >> 16)).0 as u32);
-        z = Wrapping(-((u * u + v * v).0 as i32)) / Wrapping(0x200);
+        z = -Wrapping((u * u + v * v).0 as i32) / Wrapping(0x200);
         z = z * ((Wrapping(0x10000) + b) >> 8) / Wrapping(0x10000);
         b += z;
         if z <= Wrapping(0) {
